@@ -78,6 +78,7 @@ class TrajectorySH:
         self.random_state = np.random.default_rng(self.seed_sequence)
 
         self.electronics = options.get("electronics", None)
+        self.last_electronics = options.get("last_electronics", None)
         self.hopping = 0.0
 
         self.electronic_integration = options.get("electronic_integration", "exp").lower()
@@ -571,7 +572,9 @@ class TrajectorySH:
         if not self.continue_simulating():
             return self.tracer
 
-        last_electronics = None
+        # electronics of the previous step: kept on the object so that a trajectory that is continued (or a clone
+        # of it) takes its next step exactly as an uninterrupted run would
+        last_electronics = self.last_electronics
 
         if self.electronics is None:
             self.electronics = self.model.update(self.position)
@@ -586,6 +589,7 @@ class TrajectorySH:
 
             # calculate electronics at new position
             last_electronics, self.electronics = self.electronics, self.model.update(self.position, electronics=self.electronics)
+            self.last_electronics = last_electronics
 
             # update velocity
             self.advance_velocity(last_electronics, self.electronics)
